@@ -1,0 +1,7 @@
+//go:build !verif
+
+package qnet
+
+// verifPoint marks a schedule point of the connection state machine.  Without the
+// `verif` build tag it is an empty, inlinable function.
+func (t *TcpConn) verifPoint(name string) {}
